@@ -171,7 +171,10 @@ func TestVerifLoad(t *testing.T) {
 			f.atime = base + int64(perm[i])*60
 			f.key = vKindName(f.kind) + "/" + f.hash
 			at := time.Unix(f.atime, 0)
-			if err := os.Chtimes(filepath.Join(dir, f.rel), at, at); err != nil {
+			// the modification time is unrelated to the access time (a file written slowly and never
+			// read again has a later mtime; a file read long after it was written an earlier one)
+			mt := time.Unix(base+int64(rng.Intn(len(files)+1))*60+int64(rng.Intn(50)), 0)
+			if err := os.Chtimes(filepath.Join(dir, f.rel), at, mt); err != nil {
 				t.Errorf("chtimes: %v", err)
 				return
 			}
